@@ -647,8 +647,8 @@ def modularity_finetune_dir(W, ci=None, gamma=1, seed=None):
 
     k_o = np.sum(knm_o, axis=1)  # node out-degree
     k_i = np.sum(knm_i, axis=1)  # node in-degree
-    km_o = np.sum(knm_o, axis=0)  # module out-degree
-    km_i = np.sum(knm_i, axis=0)  # module out-degree
+    km_o = np.sum(knm_i, axis=0)  # module out-degree
+    km_i = np.sum(knm_o, axis=0)  # module in-degree
 
     flag = True
     while flag:
